@@ -15,12 +15,13 @@ from pathlib import Path
 VERIF = Path(__file__).resolve().parent.parent
 COQ = VERIF / "coq"
 OCAML = VERIF / "ocaml"
-EVID = VERIF / "evidence"
+EVID = Path(os.environ["VERIF_EVID"]) if os.environ.get("VERIF_EVID") else VERIF / "evidence"
+REPO = os.environ.get("VERIF_REPO", "/repo")
 REPLAY = EVID / "replay"
 PY = "/venv/bin/python"
 
 ENV = dict(os.environ)
-ENV["PYTHONPATH"] = f"/repo:{VERIF}"
+ENV["PYTHONPATH"] = f"{REPO}:{VERIF}"
 ENV["PYTHONHASHSEED"] = "0"
 
 ASSUMPTION_WHITELIST = (
